@@ -48,6 +48,10 @@ func witnesses() []witness {
 		{"error", `(1+true)`, 1, true, true},
 		{"null", `null`, 0, false, true},
 		{"absent", `@nosuch`, 0, true, true},
+		// option maps: every key that some built-in documents for its options argument (percentile/percentiles, exec), once
+		// with values of the documented type and once with a wrong type
+		{"opts", `{"interpolate_linearly":true,"output_array_not_map":true,"array_is_final_sorted":true,"combined_output":true,"env":[],"dir":"/","stdin_string":""}`, 1, true, true},
+		{"opts-badtype", `{"interpolate_linearly":1,"output_array_not_map":"x","array_is_final_sorted":[],"combined_output":1,"env":1,"dir":1,"stdin_string":1}`, 2, true, true},
 		// ---- beyond the property's list: more kinds and parser-relevant strings
 		{"bytes", `b"a\xff"`, 2, false, true},
 		{"-0.0", `-0.0`, 2, false, false},
@@ -84,7 +88,7 @@ func witnesses() []witness {
 }
 
 var funcDeny = map[string]string{
-	"system": "shell-out", "exec": "shell-out", "os": "host fact", "hostname": "host fact", "version": "host fact",
+	"system": "shell-out", "os": "host fact", "hostname": "host fact", "version": "host fact",
 	"urand": "unseeded randomness", "urand32": "unseeded randomness", "urandint": "unseeded randomness", "urandrange": "unseeded randomness", "urandelement": "unseeded randomness",
 	"systime": "clock", "systimeint": "clock", "sysntime": "clock", "uptime": "clock", "upntime": "clock",
 }
